@@ -695,6 +695,28 @@ static void tlv_edit_checks(Node *t, const unsigned char *E) {
 	k = lens[vh_below(sizeof lens / sizeof *lens)];
 	if (k > 60000 && vh_below(4)) k = 300;             /* the oversize edit now and then only */
 	pv = malloc(k + 1); { size_t i; for (i = 0; i < k; i++) pv[i] = (unsigned char)(0x5A ^ (i * 3)); }
+	if (t->nk > 0 && turn % 5 == 4) {
+		/* children of the parsed, expanded element are taken out of its list (the way the signature builder drops records): the element is
+		 * what its remaining children are - when none is left, an empty element - and no longer the bytes it was parsed from */
+		size_t keep = vh_below(2) ? 0 : vh_below(t->nk), i; Node tmp = *t; unsigned char *exp, *b = NULL; size_t l = 0; const unsigned char *rv = NULL; size_t rvl = 0;
+		case_sub(" children %zu..%zu of the parsed element removed from its list", keep, t->nk - 1);
+		for (i = t->nk; i-- > keep; ) if (KSI_TLVList_remove(list, i, NULL) != KSI_OK) die("KSI_TLVList_remove");
+		tmp.nk = keep; measure(&tmp);
+		exp = malloc(tmp.elen + 8); enc(&tmp, exp, NULL);
+		rc = KSI_TLV_serialize(tlv, &b, &l);
+		vh_eval++;
+		judge("tlv.edit", "parse+KSI_TLVList_remove+KSI_TLV_serialize", 0, exp, tmp.elen, 0, 0, (size_t)1 << 19, rc, rc == KSI_OK ? b : NULL, l);
+		if (rc == KSI_OK && l == tmp.elen && !memcmp(b, exp, l)) vh_count(keep ? "tree_children_removed_some_left" : "tree_children_removed_none_left", 1);
+		if (rc == KSI_OK) KSI_free(b);
+		/* the raw value is the same content */
+		rc = KSI_TLV_getRawValue(tlv, &rv, &rvl);
+		vh_eval++;
+		if (rc != KSI_OK) vh_viol("tlv.edit:getRawValue-after-remove:refused", tdesc, "KSI_TLV_getRawValue after removing children res=0x%x", rc);
+		else if (rvl != tmp.clen || (rvl && memcmp(rv, exp + tmp.hl, rvl))) vh_viol("tlv.edit:getRawValue-after-remove:wrong-content", tdesc, "after removing children the raw value has %zu bytes, the remaining children encode to %zu", rvl, tmp.clen);
+		measure(t);
+		free(exp);
+		goto done;
+	}
 	if (op == 3) {
 		/* the parsed element (expanded above) gets a raw value of k bytes - shorter or longer than what it was parsed with */
 		Node lf; unsigned char *exp, *b = NULL; size_t l = 0;
